@@ -693,19 +693,45 @@ Qed.
 (* ---------------------------------------------------------------------------------------- *)
 (* STEP 3                                                                                    *)
 (* ---------------------------------------------------------------------------------------- *)
+Lemma tick_offsets st d st' z :
+  net_step st (NTick d) = Ok st' ->
+  una_off (net_get st' z) = una_off (net_get st z) /\ rcv_off (net_get st' z) = rcv_off (net_get st z).
+Proof.
+  intros H. rewrite (net_step_tick _ _ _ H). destruct (tick_same st d z) as (E1 & E2 & E3 & _).
+  unfold una_off, rcv_off. rewrite E1, E2, E3. split; reflexivity.
+Qed.
+
+(* the goal "SND.UNA advanced" is reached from a state of one of the phases by an event that is not
+   a tick: the progress state inherits the invariants and the clock of the state before *)
+Lemma finish u0 dk fa0 st0 ev0 st1 B :
+  Gbase u0 dk fa0 st0 -> net_now st0 x <= B -> fair_ev fa0 st0 ev0 -> net_step st0 ev0 = Ok st1 ->
+  Qg u0 st1 ->
+  NI st1 /\ opts_ok st1 /\ dl_sync (fa_after Dt Da fa0 ev0 st1) st1 /\ net_now st1 x <= B.
+Proof.
+  intros (HN & Ho & Hsy & _ & Hu & _) HB Hfe H HQ.
+  split; [exact (NI_step _ _ _ HN H)|]. split; [exact (opts_step _ _ _ Ho H)|].
+  split; [exact (fa_after_sync Dt Da _ _ _ _ Hsy Hfe H)|].
+  rewrite (net_step_now _ _ _ x H). destruct ev0; try lia.
+  exfalso. destruct (tick_offsets _ _ _ x H) as (E & _). unfold Qg in HQ. lia.
+Qed.
+
 (* x has unacknowledged octets - whether y has already accepted some of them (the ACK was lost, or
    is still owed) or none.  On every fair run on which the safety facts hold, before x's clock has
-   advanced by more than RTTE_MAX_RTO + 2 Dt + Dack the run passes through a state in which SND.UNA
-   of x has advanced: retransmission from SND.UNA, delivery, acceptance of the new part or an
-   immediate ACK of RCV.NXT, the (possibly delayed) ACK, its delivery and acceptance. *)
-Theorem ack_eventually_advances_snd_una : forall evs fa st st' u0,
+   advanced by more than W3 = RTTE_MAX_RTO + 2 Dt + Dack the run passes through a state st1 in which
+   SND.UNA of x has advanced: retransmission from SND.UNA, delivery, acceptance of the new part or an
+   immediate ACK of RCV.NXT, the (possibly delayed) ACK, its delivery and acceptance.  st1 occurs no
+   later than W3 after the start, and the rest of the run is again a fair run from st1. *)
+Theorem ack_round : forall evs fa st st' u0,
   0 <= Dt -> 0 <= Dack ->
   NI st -> opts_ok st -> dl_sync fa st ->
   run_all safe3 st evs -> fair_run Dt Da fa st evs -> net_run st evs = Ok st' ->
   0 < txl x st -> una_off (net_get st x) = u0 ->
   net_now st x + max_rto_us + 2 * Dt + Dack < net_now st' x ->
-  exists pre post st1, evs = pre ++ post /\ net_run st pre = Ok st1 /\ net_run st1 post = Ok st' /\
-                       Qg u0 st1.
+  exists pre post fa1 st1,
+    evs = pre ++ post /\ net_run st pre = Ok st1 /\ net_run st1 post = Ok st' /\
+    run_all safe3 st1 post /\ fair_run Dt Da fa1 st1 post /\
+    NI st1 /\ opts_ok st1 /\ dl_sync fa1 st1 /\
+    Qg u0 st1 /\ net_now st1 x <= net_now st x + max_rto_us + 2 * Dt + Dack.
 Proof.
   intros evs fa st st' u0 HDt HDk HN Ho Hsy HRun Hfair Hrun Hl Hu Hlate.
   set (dk := net_now st y - net_now st x).
@@ -716,55 +742,101 @@ Proof.
   { split; [split; [exact HN|]; split; [exact Ho|]; split; [exact Hsy|]; split; [reflexivity|]; split; [exact Hu | exact Hl]|].
     split; [unfold T1; pose proof max_rto_us_pos; lia|].
     intros e He. destruct (HN x) as (_ & _ & (_ & Hb) & _). unfold net_sock in He. rewrite He in Hb. exact Hb. }
+  (* packaging of a progress state reached from a state st0 with Gbase and x-clock <= T4 *)
+  assert (Hpack : forall pre1 post1 fa0 st0 ev0 st1,
+            evs = pre1 ++ post1 -> net_run st pre1 = Ok st1 -> net_run st1 post1 = Ok st' ->
+            run_all safe3 st1 post1 -> fair_run Dt Da (fa_after Dt Da fa0 ev0 st1) st1 post1 ->
+            Gbase u0 dk fa0 st0 -> net_now st0 x <= T4 -> fair_ev fa0 st0 ev0 -> net_step st0 ev0 = Ok st1 ->
+            Qg u0 st1 ->
+            exists pre post fa1 st1,
+              evs = pre ++ post /\ net_run st pre = Ok st1 /\ net_run st1 post = Ok st' /\
+              run_all safe3 st1 post /\ fair_run Dt Da fa1 st1 post /\
+              NI st1 /\ opts_ok st1 /\ dl_sync fa1 st1 /\
+              Qg u0 st1 /\ net_now st1 x <= T4).
+  { intros pre1 post1 fa0 st0 ev0 st1 E1 E2 E3 E4 E5 HG HB Hfe Hs HQ.
+    destruct (finish u0 dk fa0 st0 ev0 st1 T4 HG HB Hfe Hs HQ) as (F1 & F2 & F3 & F4).
+    exists pre1, post1, (fa_after Dt Da fa0 ev0 st1), st1. auto 12. }
   (* the last phase, from any K4 with a deadline not after T4 *)
-  assert (Hfin : forall post1 fa1 st1 T, T <= T4 -> K4 u0 dk T fa1 st1 -> run_all safe3 st1 post1 ->
+  assert (Hfin : forall pre0 post1 fa1 st1 T, evs = pre0 ++ post1 -> net_run st pre0 = Ok st1 ->
+            T <= T4 -> K4 u0 dk T fa1 st1 -> run_all safe3 st1 post1 ->
             fair_run Dt Da fa1 st1 post1 -> net_run st1 post1 = Ok st' ->
-            exists pre2 post2 st2, post1 = pre2 ++ post2 /\ net_run st1 pre2 = Ok st2 /\
-                                   net_run st2 post2 = Ok st' /\ Qg u0 st2).
-  { intros post1 fa1 st1 T HT HK4 HR1 Hf1 Hr1.
-    destruct (fair_leads_under Dt Da safe3 (K4 u0 dk T4) (fun _ st => Qg u0 st) x T4
+            exists pre post fa1 st1,
+              evs = pre ++ post /\ net_run st pre = Ok st1 /\ net_run st1 post = Ok st' /\
+              run_all safe3 st1 post /\ fair_run Dt Da fa1 st1 post /\
+              NI st1 /\ opts_ok st1 /\ dl_sync fa1 st1 /\
+              Qg u0 st1 /\ net_now st1 x <= T4).
+  { intros pre0 post1 fa1 st1 T E0 R0 HT HK4 HR1 Hf1 Hr1.
+    destruct (fair_leads_under_last Dt Da safe3 (K4 u0 dk T4) (fun _ st => Qg u0 st) x T4
                 ltac:(intros fa0 st0 (_ & j0 & q0 & t0 & d0 & _ & _ & A & B & _); lia)
-                ltac:(intros fa0 st0 ev0 st0' R0 R0' J0 F0 S0; exact (K4_step _ _ _ _ _ _ _ R0 R0' J0 F0 S0))
+                ltac:(intros fa0 st0 ev0 st0' R1 R1' J0 F0 S0; exact (K4_step _ _ _ _ _ _ _ R1 R1' J0 F0 S0))
                 post1 fa1 st1 st' (K4_mono _ _ _ _ _ _ HT HK4) HR1 Hf1 Hr1 ltac:(unfold T4, T1 in *; lia))
-      as (pre2 & post2 & fa2 & st2 & -> & Hq1 & Hq2 & _ & _ & HQ).
-    exists pre2, post2, st2. auto. }
+      as (pre2 & post2 & fa2 & st2 & -> & Hq1 & Hq2 & HR2 & Hf2 & HQ & fa0 & st0 & ev0 & HJ0 & _ & Hfe0 & Hs0 & ->).
+    destruct HJ0 as (HG0 & j0 & q0 & t0 & d0 & _ & _ & A & B & _).
+    apply (Hpack (pre0 ++ pre2) post2 fa0 st0 ev0 st2); auto.
+    - rewrite E0, app_assoc. reflexivity.
+    - eapply net_run_app; eassumption.
+    - lia. }
   (* phase 1 *)
-  destruct (fair_leads_under Dt Da safe3 (K1 u0 dk T1)
+  destruct (fair_leads_under_last Dt Da safe3 (K1 u0 dk T1)
               (fun fa st => Qg u0 st \/ K2 u0 dk (T1 + dk + Dt) fa st) x T1
               ltac:(intros fa0 st0 (_ & H0 & _); exact H0)
               ltac:(intros fa0 st0 ev0 st0' R0 R0' J0 F0 S0; exact (K1_step _ _ _ _ _ _ _ HDt R0 R0' J0 F0 S0))
               evs fa st st' HK1 HRun Hfair Hrun ltac:(unfold T1 in *; lia))
-    as (pre & post & fa1 & st1 & -> & Hp1 & Hp2 & HR1 & Hf1 & [HQ | HK2]).
-  { exists pre, post, st1. auto. }
+    as (pre & post & fa1 & st1 & E & Hp1 & Hp2 & HR1 & Hf1 & [HQ | HK2] & fa0 & st0 & ev0 & HJ0 & _ & Hfe0 & Hs0 & Efa).
+  { subst fa1. destruct HJ0 as (HG0 & A & _).
+    apply (Hpack pre post fa0 st0 ev0 st1); auto. unfold T4. lia. }
+  clear fa0 st0 ev0 HJ0 Hfe0 Hs0 Efa.
   (* phase 2 *)
   set (T2 := T1 + dk + Dt) in *.
-  destruct (fair_leads_under Dt Da safe3 (K2 u0 dk T2)
+  destruct (fair_leads_under_last Dt Da safe3 (K2 u0 dk T2)
               (fun fa st => Qg u0 st \/ K3 u0 dk (T2 + Dack) fa st \/ K4 u0 dk (T2 - dk + Dt) fa st) y T2
               ltac:(intros fa0 st0 (_ & i0 & p0 & t0 & _ & _ & A & B & _); lia)
               ltac:(intros fa0 st0 ev0 st0' R0 R0' J0 F0 S0; exact (K2_step _ _ _ _ _ _ _ HDt HDk R0 R0' J0 F0 S0))
               post fa1 st1 st' HK2 HR1 Hf1 Hp2 ltac:(unfold T2, T1 in *; lia))
-    as (pre2 & post2 & fa2 & st2 & -> & Hq1 & Hq2 & HR2 & Hf2 & [HQ | [HK3 | HK4]]).
-  { exists (pre ++ pre2), post2, st2. split; [rewrite app_assoc; reflexivity|].
-    split; [eapply net_run_app; eassumption|]. split; assumption. }
-  2:{ assert (HT : T2 - dk + Dt <= T4) by (unfold T4, T2; lia).
-      destruct (Hfin post2 fa2 st2 _ HT HK4 HR2 Hf2 Hq2) as (pre3 & post3 & st3 & -> & Hs1 & Hs2 & HQ).
-      exists (pre ++ pre2 ++ pre3), post3, st3. split; [rewrite !app_assoc; reflexivity|].
-      split; [eapply net_run_app; [exact Hp1|]; eapply net_run_app; eassumption|]. split; assumption. }
+    as (pre2 & post2 & fa2 & st2 & E2 & Hq1 & Hq2 & HR2 & Hf2 & [HQ | [HK3 | HK4]] & fa0 & st0 & ev0 & HJ0 & _ & Hfe0 & Hs0 & Efa).
+  { subst fa2. destruct HJ0 as (HG0 & i0 & p0 & t0 & _ & _ & A & B & _).
+    apply (Hpack (pre ++ pre2) post2 fa0 st0 ev0 st2); auto.
+    - rewrite E, E2, app_assoc. reflexivity.
+    - eapply net_run_app; eassumption.
+    - destruct HG0 as (_ & _ & _ & Hsk & _). unfold T4, T2 in *. lia. }
+  2:{ apply (Hfin (pre ++ pre2) post2 fa2 st2 (T2 - dk + Dt)); auto.
+      - rewrite E, E2, app_assoc. reflexivity.
+      - eapply net_run_app; eassumption.
+      - unfold T4, T2. lia. }
+  clear fa0 st0 ev0 HJ0 Hfe0 Hs0 Efa.
   (* phase 3 *)
   set (T3 := T2 + Dack) in *.
-  destruct (fair_leads_under Dt Da safe3 (K3 u0 dk T3)
+  destruct (fair_leads_under_last Dt Da safe3 (K3 u0 dk T3)
               (fun fa st => Qg u0 st \/ K4 u0 dk (T3 - dk + Dt) fa st) y T3
               ltac:(intros fa0 st0 (_ & _ & _ & A & _); exact A)
               ltac:(intros fa0 st0 ev0 st0' R0 R0' J0 F0 S0; exact (K3_step _ _ _ _ _ _ _ HDt R0 R0' J0 F0 S0))
               post2 fa2 st2 st' HK3 HR2 Hf2 Hq2 ltac:(unfold T3, T2, T1 in *; lia))
-    as (pre3 & post3 & fa3 & st3 & -> & Hs1 & Hs2 & HR3 & Hf3 & [HQ | HK4]).
-  { exists (pre ++ pre2 ++ pre3), post3, st3. split; [rewrite !app_assoc; reflexivity|].
-    split; [eapply net_run_app; [exact Hp1|]; eapply net_run_app; eassumption|]. split; assumption. }
-  assert (HT : T3 - dk + Dt <= T4) by (unfold T4, T3, T2; lia).
-  destruct (Hfin post3 fa3 st3 _ HT HK4 HR3 Hf3 Hs2) as (pre4 & post4 & st4 & -> & Hr1 & Hr2 & HQ).
-  exists (pre ++ pre2 ++ pre3 ++ pre4), post4, st4. split; [rewrite !app_assoc; reflexivity|].
-  split; [eapply net_run_app; [exact Hp1|]; eapply net_run_app; [exact Hq1|]; eapply net_run_app; eassumption|].
-  split; assumption.
+    as (pre3 & post3 & fa3 & st3 & E3 & Hs1 & Hs2 & HR3 & Hf3 & [HQ | HK4] & fa0 & st0 & ev0 & HJ0 & _ & Hfe0 & Hs0 & Efa).
+  { subst fa3. destruct HJ0 as (HG0 & _ & _ & A & _).
+    apply (Hpack (pre ++ pre2 ++ pre3) post3 fa0 st0 ev0 st3); auto.
+    - rewrite E, E2, E3, !app_assoc. reflexivity.
+    - eapply net_run_app; [exact Hp1|]. eapply net_run_app; eassumption.
+    - destruct HG0 as (_ & _ & _ & Hsk & _). unfold T4, T3, T2 in *. lia. }
+  apply (Hfin (pre ++ pre2 ++ pre3) post3 fa3 st3 (T3 - dk + Dt)); auto.
+  - rewrite E, E2, E3, !app_assoc. reflexivity.
+  - eapply net_run_app; [exact Hp1|]. eapply net_run_app; eassumption.
+  - unfold T4, T3, T2. lia.
+Qed.
+
+(* the statement of step 3 proper *)
+Theorem ack_eventually_advances_snd_una : forall evs fa st st' u0,
+  0 <= Dt -> 0 <= Dack ->
+  NI st -> opts_ok st -> dl_sync fa st ->
+  run_all safe3 st evs -> fair_run Dt Da fa st evs -> net_run st evs = Ok st' ->
+  0 < txl x st -> una_off (net_get st x) = u0 ->
+  net_now st x + max_rto_us + 2 * Dt + Dack < net_now st' x ->
+  exists pre post st1, evs = pre ++ post /\ net_run st pre = Ok st1 /\ net_run st1 post = Ok st' /\
+                       Qg u0 st1.
+Proof.
+  intros evs fa st st' u0 HDt HDk HN Ho Hsy HRun Hfair Hrun Hl Hu Hlate.
+  destruct (ack_round evs fa st st' u0 HDt HDk HN Ho Hsy HRun Hfair Hrun Hl Hu Hlate)
+    as (pre & post & fa1 & st1 & E & A & B & _ & _ & _ & _ & _ & HQ & _).
+  exists pre, post, st1. auto.
 Qed.
 
 End Ack.
